@@ -828,6 +828,8 @@ def make_path(tpl: Template, cls: str, v: int) -> str:
     if cls == 'unknown_prefix':
         other = C_PREFIX if tpl.endpoint == 'provider' else P_PREFIX
         return '/' + ('deadbeef' * 4, other, 'unknown')[v % 3] + rest
+    if cls == 'escaped_prefix':
+        return '/' + ('%E2%82%AC', 'x%0D%0AX-Injected:%201', 'caf%E9')[v % 3] + rest
     if cls == 'root':
         return ('/', '/?wsdl', 'http://127.0.0.1:10001/')[v % 3]
     if cls == 'no_path':
